@@ -18,7 +18,7 @@ for _it in B.UNIT.items[:_MARK]:
     else:
         TARGET_ITEMS.append(_it)
 for _it in B.UNIT.items[_MARK:]:
-    if isinstance(_it, Fn) and _it.container == "ProgressDrawTarget" and _it.name in ("width", "is_hidden"):
+    if isinstance(_it, Fn) and _it.container == "ProgressDrawTarget" and _it.name in ("width", "is_hidden", "disconnect", "set_move_cursor"):
         _c = copy.copy(_it)
         _c.stub = True
         TARGET_ITEMS.append(_c)
@@ -328,7 +328,7 @@ INSERT_RW = [
 
 UNIT = Unit(
     name="multi_state",
-    properties=["C02", "C03", "C04", "C18", "C19"],
+    properties=["C02", "C03", "C04", "C06", "C18", "C19"],
     prelude=["time", "gterm"],
     rlimit=200,
     trusted=[
@@ -676,6 +676,22 @@ spec fn ms_clear_post(a: MultiState, b: MultiState) -> bool {
                     ("C02-C03-nothing-else-changes",
                      "final(self).state.ordering@ == old(self).state.ordering@ && final(self).state.members@ == old(self).state.members@ && final(self).state.orphan_lines@ == old(self).state.orphan_lines@ "
                      "&& final(self).state.draw_target == old(self).state.draw_target && final(self).state.zombie_lines_count == old(self).state.zombie_lines_count && final(self).state.free_set@ == old(self).state.free_set@")]),
+        Fn("src/multi.rs", "MultiProgress", "set_move_cursor", sig_rewrites=[K.SELF_MUT],
+           rewrites=[Rw("R2", r"self\.state\s*\.write\(\)\s*\.unwrap\(\)", "self.state")],
+           ensures=[("C01-C03-only-the-cursor-mode-of-the-own-terminal-changes",
+                     "old(self).state.draw_target.own() matches Some(x) ==> (final(self).state.draw_target.own() matches Some(y) && y.0 == x.0 && y.1 == x.1 && y.2.move_cursor == move_cursor "
+                     "&& y.2.lines == x.2.lines && y.2.alignment == x.2.alignment)"),
+                    ("C05-C06-target-otherwise-the-same", "final(self).state.draw_target.same_kind(old(self).state.draw_target) && final(self).state.draw_target.ops() == old(self).state.draw_target.ops() "
+                     "&& final(self).state.draw_target.limiter() == old(self).state.draw_target.limiter()"),
+                    ("C02-C03-members-untouched",
+                     "final(self).state.ordering@ == old(self).state.ordering@ && final(self).state.members@ == old(self).state.members@ && final(self).state.orphan_lines@ == old(self).state.orphan_lines@ "
+                     "&& final(self).state.alignment == old(self).state.alignment && final(self).state.zombie_lines_count == old(self).state.zombie_lines_count && final(self).state.free_set@ == old(self).state.free_set@")]),
+        Fn("src/multi.rs", "MultiProgress", "set_draw_target", sig_rewrites=[K.SELF_MUT],
+           rewrites=[Rw("R2", r"let mut state = self\.state\.write\(\)\.unwrap\(\);", "let state = &mut self.state;")],
+           ensures=[("C06-new-target-installed", "final(self).state.draw_target == target", ["C06"]),
+                    ("C02-C03-members-untouched",
+                     "final(self).state.ordering@ == old(self).state.ordering@ && final(self).state.members@ == old(self).state.members@ && final(self).state.orphan_lines@ == old(self).state.orphan_lines@ "
+                     "&& final(self).state.alignment == old(self).state.alignment && final(self).state.zombie_lines_count == old(self).state.zombie_lines_count && final(self).state.free_set@ == old(self).state.free_set@")]),
         Fn("src/multi.rs", "MultiProgress", "println", ret="r", sig_rewrites=[K.SELF_MUT, K.IO_RESULT, Rw("R15", r"<I: AsRef<str>>", ""), Rw("R15", r"msg: I", "msg: &str")],
            rewrites=[Rw("R2", r"let mut state = self\.state\.write\(\)\.unwrap\(\);", "let state = &mut self.state;")],
            proofs=[(r"state\.println\(msg, Instant::now\(\)\)", "at", """{ let __now = Instant::now(); proof { assert(time_ok(__now)); } state.println(msg, __now) }""")],
